@@ -150,7 +150,7 @@ def cli_family(pid, tier, chk):
     if quick:
         chk.rng.shuffle(plans)
         plans = plans[:260]
-    traces, inputs = DC.cli_traces(chk, plans, fmts=("json", "json", "yaml"), sub_every=8 if quick else 3)
+    traces, inputs = DC.cli_traces(chk, plans, fmts=("json", "json", "yaml", "ini"), sub_every=8 if quick else 3)
     chk.rules.append("%d TLC-enumerated CLI plans materialised as real files + argv and run through json_to_models.cli.main() with "
                      "recording wrappers (file loaders, validate, set_args, generate, generate_code, open, write, print)" % len(plans))
     chk.validate("Trace_Cli", traces, inputs, shard=40)
